@@ -96,35 +96,193 @@ def d1(ctx, prog):
 
 
 def d2(ctx, prog):
+    """DES key-schedule inversion: _find_possible_keys is partially evaluated (sa.confinterp extended with bit cells: the
+    round-key bits are symbols, everything else - tables, shifts, reshapes, rotations, index maps - is constant) for each of the
+    16 round indexes; every one of the 64 master-key positions must hold exactly the round-key bit that PC-2 o rot o PC-1 puts
+    there, 'unknown' where PC-2 drops the bit, 0 on the parity positions."""
+    from .. import confinterp as cf
     f = prog.need_func(D, '_find_possible_keys')
-    nb, node = tables.literal(prog, D, 'nb_shift', func=f)
+    conv = prog.func(D, '_convert_hypothesis_bits_into_keys')
+
+    class Stop(Exception):
+        pass
+
+    class KeyInv(cf.Interp):
+        def __init__(self, prog):
+            super().__init__(prog)
+            self.captured = None
+            self.conflicts = []
+
+        def binop(self, op, a, b):
+            if isinstance(op, ast.BitAnd) and isinstance(a, cf.Sym) and a.term and a.term[0] == 'index' and isinstance(b, int):
+                return ('masked', a.term[2], b)
+            return super().binop(op, a, b)
+
+        def compare(self, op, a, b):
+            if isinstance(a, tuple) and a and a[0] == 'masked':
+                word, mask = a[1], a[2]
+                if isinstance(op, ast.NotEq) and b == 0 and mask > 0 and mask & (mask - 1) == 0 and isinstance(word, int):
+                    return ('bit', word, mask.bit_length() - 1)
+                raise cf.Unknown('comparison of a masked round-key word')
+            return super().compare(op, a, b)
+
+        def ev(self, e, env, mod, func, depth):
+            if isinstance(e, ast.Compare) and len(e.ops) == 1:
+                left = self.ev(e.left, env, mod, func, depth)
+                if isinstance(left, tuple) and left and left[0] == 'masked':
+                    return self.compare(e.ops[0], left, self.ev(e.comparators[0], env, mod, func, depth))
+            return super().ev(e, env, mod, func, depth)
+
+        def stmt(self, st, env, func, depth):
+            if isinstance(st, ast.If):
+                c = self.ev(st.test, env, func.mod, func, depth)
+                if isinstance(c, tuple) and c and c[0] == 'bit':
+                    if st.orelse or len(st.body) != 1 or not (isinstance(st.body[0], ast.Assign) and isinstance(st.body[0].targets[0], ast.Subscript)):
+                        raise cf.Unknown('data dependent branch is not `if <bit>: cells[i] = 1`')
+                    a = st.body[0]
+                    v = self.ev(a.value, env, func.mod, func, depth)
+                    arr = self.ev(a.targets[0].value, env, func.mod, func, depth)
+                    i_ = self.ev(a.targets[0].slice, env, func.mod, func, depth)
+                    if v != 1 or not isinstance(arr, list) or not isinstance(i_, int):
+                        raise cf.Unknown('data dependent store is not the constant 1 into a cell')
+                    if not -len(arr) <= i_ < len(arr):
+                        raise cf.Raised('IndexError', st)
+                    if arr[i_] != 0:
+                        self.conflicts.append((i_, arr[i_], c))
+                    arr[i_] = c          # cell = that round-key bit (0 when clear, 1 when set)
+                    return
+                self.block(st.body if self.truth(c) else st.orelse, env, func, depth)
+                return
+            return super().stmt(st, env, func, depth)
+
+        def callexpr(self, e, env, mod, func, depth):
+            fn = e.func
+            d = self.prog.dotted(mod, fn) if isinstance(fn, (ast.Name, ast.Attribute)) else None
+            name = (d or '').split('.')[-1]
+            if d and d.startswith('numpy') and name in ('array', 'asarray', 'roll', 'zeros', 'copy'):
+                args = [self.ev(a, env, mod, func, depth) for a in e.args]
+                kws = {k.arg: self.ev(k.value, env, mod, func, depth) for k in e.keywords if k.arg != 'dtype'}
+                if name in ('array', 'asarray', 'copy') and isinstance(args[0], list):
+                    return cf.TList(args[0])
+                if name == 'zeros' and isinstance(args[0], int):
+                    return cf.TList([0] * args[0])
+                if name == 'roll':
+                    a = args[0]
+                    sh = kws.get('shift', args[1] if len(args) > 1 else None)
+                    ax = kws.get('axis', args[2] if len(args) > 2 else None)
+                    if not isinstance(sh, int):
+                        raise cf.Unknown('roll shift')
+                    if isinstance(a, list) and a and isinstance(a[0], list):
+                        if ax not in (1, -1):
+                            raise cf.Unknown(f'roll of the two halves along axis {ax}')
+                        return cf.TList([cf.TList([row[(i_ - sh) % len(row)] for i_ in range(len(row))]) for row in a])
+                    if isinstance(a, list):
+                        if ax not in (None, 0, -1):
+                            raise cf.Unknown('roll axis')
+                        return cf.TList([a[(i_ - sh) % len(a)] for i_ in range(len(a))])
+                raise cf.Unknown(f'numpy.{name}')
+            if isinstance(fn, ast.Attribute) and fn.attr == 'reshape':
+                o = self.ev(fn.value, env, mod, func, depth)
+                if isinstance(o, list):
+                    dims = [self.ev(a, env, mod, func, depth) for a in e.args]
+                    if len(dims) == 1 and isinstance(dims[0], tuple):
+                        dims = list(dims[0])
+                    flat = []
+                    for x in o:
+                        flat.extend(x if isinstance(x, list) else [x])
+                    if len(dims) == 1 and dims[0] in (len(flat), -1):
+                        return cf.TList(flat)
+                    if len(dims) == 2 and all(isinstance(x, int) for x in dims) and dims[0] * dims[1] == len(flat):
+                        return cf.TList([cf.TList(flat[r * dims[1]:(r + 1) * dims[1]]) for r in range(dims[0])])
+                    raise cf.Unknown(f'reshape to {dims}')
+            if conv is not None and isinstance(fn, ast.Name) and fn.id == conv.name:
+                self.captured = self.ev(e.args[0], env, mod, func, depth)
+                raise Stop()
+            return super().callexpr(e, env, mod, func, depth)
+
     cum = []
     t = 0
-    for s in fips.SHIFTS:
-        t += s
+    for sft in fips.SHIFTS:
+        t += sft
         cum.append(t)
-    ctx.check(list(nb) == cum, 'C10-D2', f'{f.key}::nb_shift', f'nb_shift = {list(nb)}; the cumulative FIPS shift schedule is {cum}', 'nb_shift = cumulative left shifts per round', f.where(node))
-    cd, node = tables.literal(prog, D, 'ci_di', func=f)
-    unknown = sorted(i for i, v in enumerate(cd) if v == 255)
-    comp = sorted(set(range(56)) - {p - 1 for p in fips.PC2})
-    ctx.check(len(cd) == 56 and unknown == comp and all(v in (0, 255) for v in cd), 'C10-D2', f'{f.key}::ci_di unknown bits',
-              f'positions marked unknown (255): {unknown}; the bits PC-2 drops are {comp}', 'unknown positions = complement of the image of PC-2 (8 bits)', f.where(node))
-    txt = norm(f.node).replace(' ', '')
-    ctx.check('ci_di[PC2[index]-1]=1' in txt and 'forindexinrange(48):' in txt and 'word=int(index/6)' in txt and 'bit=1<<5-index%6' in txt,
-              'C10-D2', f'{f.key}::undo PC-2', 'undoing PC-2 is no longer ci_di[PC2[index] - 1] = bit (5 - index % 6) of word index // 6',
-              'round-key bit index -> C/D position PC2[index] - 1, MSB first in each 6-bit word', f.where())
-    rolls = [c for c in ast.walk(f.node) if isinstance(c, ast.Call) and norm(c.func).split('.')[-1] == 'roll']
-    ok = len(rolls) == 1 and norm(rolls[0].args[1]).replace(' ', '').lstrip('+') == 'nb_shift[nb_round]' and const_value(rolls[0].args[2]) == 1 and 'ci_di=ci_di.reshape(2,28)' in txt
-    ctx.check(ok, 'C10-D2', f'{f.key}::undo rotation', 'the left shifts are not undone by rotating each 28-bit half right by nb_shift[nb_round]', 'C and D rotated right by the cumulative shift', f.where())
-    ctx.check('master_key[PC1[index]-1]=ci_di[index]' in txt and 'forindexinrange(len(PC1)):' in txt, 'C10-D2', f'{f.key}::undo PC-1',
-              'undoing PC-1 is no longer master_key[PC1[index] - 1] = ci_di[index]', 'C/D position index -> key bit PC1[index] - 1', f.where())
+    bad = []
+    und = None
+    for r in range(16):
+        it = KeyInv(prog)
+        try:
+            it.call(f, kwargs={f.params[0]: cf.Sym('round_key'), f.params[1]: r})
+            und = 'the candidate bits are never handed to the enumeration of unknown bits'
+            break
+        except Stop:
+            pass
+        except cf.Unknown as e:
+            und = str(e)
+            break
+        except cf.Raised as e:
+            bad.append(f'round index {r}: refused ({e.kind})')
+            continue
+        mk = it.captured
+        if not isinstance(mk, list) or len(mk) != 64:
+            bad.append(f'round index {r}: {len(mk) if isinstance(mk, list) else "no"} key bits handed on, expected 64')
+            continue
+        want = [0] * 64
+        hit = {}
+        for j_ in range(48):
+            p_ = fips.PC2[j_] - 1
+            h, o = divmod(p_, 28)
+            i_ = h * 28 + (o + cum[r]) % 28
+            hit[i_] = ('bit', j_ // 6, 5 - j_ % 6)
+        for i_ in range(56):
+            want[fips.PC1[i_] - 1] = hit.get(i_, 255)
+        if it.conflicts:
+            bad.append(f'round index {r}: round-key bit written over a position marked unknown (C/D position {it.conflicts[0][0]})')
+        diff = [k for k in range(64) if mk[k] != want[k]]
+        if diff:
+            k = diff[0]
+
+            def sh(c):
+                return f'round-key word {c[1]} bit {c[2]}' if isinstance(c, tuple) else ('unknown' if c == 255 else str(c))
+            bad.append(f'round index {r}: key bit {k + 1} is taken from {sh(mk[k])}; PC-2 o rot o PC-1 puts {sh(want[k])} there ({len(diff)} of 64 positions differ)')
+    key = f'{f.key}::inverse schedule'
+    if und:
+        ctx.undecided('C10-D2', key, f'key inversion not evaluable: {und}', f.where())
+    elif bad:
+        ctx.fail('C10-D2', key, f'{bad[0]} ({len(bad)} of 16 round indexes wrong)', f.where(), wrong_rounds=len(bad))
+    else:
+        ctx.ok('C10-D2', key, '16 round indexes x 64 key positions: each holds the round-key bit PC-2 o rot o PC-1 put there, unknown where PC-2 drops it, 0 on parity bits', f.where(), positions=1024)
+    # get_master_key hands the round key and its index over unchanged and tries every candidate
+    g = prog.need_func(D, 'get_master_key')
+    calls = [c for c in ast.walk(g.node) if isinstance(c, ast.Call) and norm(c.func) == f.name]
+    ok = len(calls) == 1 and [norm(a) for a in calls[0].args] + [norm(k.value) for k in calls[0].keywords] == g.params[:2]
+    ctx.check(ok, 'C10-D2', f'{g.key}::hand-over', 'get_master_key does not pass (round_key, nb_round) to the inversion unchanged', 'round key and round index handed over unchanged', g.where())
 
 
 class Terms:
-    def __init__(self, f, colvar, ek='expanded_key'):
-        self.f, self.col, self.ek = f, colvar, ek
+    def __init__(self, f, colvar, ek='expanded_key', prog=None):
+        self.f, self.col, self.ek, self.prog = f, colvar, ek, prog
+        self.binds = []
 
     def ev(self, e):
+        if isinstance(e, ast.Name):
+            for b in reversed(self.binds):
+                if e.id in b:
+                    return b[e.id]
+        if isinstance(e, ast.Call) and isinstance(e.func, ast.Name) and self.prog is not None and len(self.binds) < 4:
+            r = self.prog.resolve(self.f.mod, e.func)
+            if r and r[0] == 'func' and r[1].mod is self.f.mod:
+                callee = r[1]
+                body = [s for s in callee.node.body if not (isinstance(s, ast.Expr) and isinstance(s.value, ast.Constant))]
+                if len(body) == 1 and isinstance(body[0], ast.Return) and len(e.args) + len(e.keywords) == len(callee.params):
+                    bind = {}
+                    for p_, a in zip(callee.params, e.args):
+                        bind[p_] = self.ev(a)
+                    for k in e.keywords:
+                        bind[k.arg] = self.ev(k.value)
+                    self.binds.append(bind)
+                    try:
+                        return self.ev(body[0].value)
+                    finally:
+                        self.binds.pop()
         if isinstance(e, ast.Subscript):
             base = norm(e.value)
             if base == self.ek:
@@ -150,10 +308,14 @@ class Terms:
             if last == 'roll':
                 kws = {k.arg: k.value for k in e.keywords}
                 inner = self.ev(e.args[0])
-                sh, ax = const_value(kws.get('shift')), const_value(kws.get('axis'))
+                shn = kws.get('shift', e.args[1] if len(e.args) > 1 else None)
+                axn = kws.get('axis', e.args[2] if len(e.args) > 2 else None)
+                sh, ax = const_value(shn) if shn is not None else None, const_value(axn) if axn is not None else None
                 if len(inner) != 1:
                     raise AnalysisError('rotation of a xor')
-                return frozenset([('rot' if (sh, ax) == (-1, -1) else f'roll(shift={sh},axis={ax})', next(iter(inner)))])
+                # the rolled value is a (keys, 4) block: RotWord is a left rotation by one along the last axis (axis -1 or 1);
+                # without an axis numpy rolls the flattened block, i.e. across keys
+                return frozenset([('rot' if (sh, ax) in ((-1, -1), (-1, 1), (3, -1), (3, 1)) else f'roll(shift={sh},axis={ax})', next(iter(inner)))])
         raise AnalysisError(f'term `{norm(e)[:50]}` not modelled')
 
     def branch(self, stmts):
@@ -200,7 +362,7 @@ def expansion(ctx, prog, fname, forward):
     if len(chain) != 4:
         ctx.undecided('C10-D3', key, f'{len(chain)} branches in the expansion rule, expected base / c mod Nk = 0 / Nk = 8 and c mod 4 = 0 / else', f.where())
         return 0
-    T = Terms(f, col)
+    T = Terms(f, col, prog=prog)
     conds = [c for c, b in chain]
     want_conds = [f'{idx}<cols_in', f'{col}%cols_in==0', f'bytes_key_length==32and{col}%4==0', 'else']
     ctx.check(conds == want_conds, 'C10-D3', key + ' conditions', f'branch conditions {conds}; FIPS-197 5.2 (Nk = cols_in): {want_conds}', 'conditions: window copy / c mod Nk = 0 / Nk = 8 and c mod 4 = 0 / else', f.where())
